@@ -14,7 +14,7 @@ def run(ctx):
     ctx.explanation = ('Byte-exactness under arbitrary short-write schedules is a value property and is not claimed. Decided: the header block enters the output exactly under the not-yet-written flag which is set on that path; '
                        'FastCGI record headers are proved in range and the pre-built full-size header is only used when the same call prepared it; END_REQUEST only on the completed edge; literal/length pairs agree; '
                        'chunk framing order; output-side keep-alive reset; the bytes re-queued after a short write are exactly output+n of the buffer that was written.')
-    ctx.units = ['src/http_api.cpp', 'src/fastcgi_api.cpp', 'src/cgi_api.cpp', 'src/scgi_api.cpp', 'src/http_response.cpp']
+    ctx.units = ['src/http_api.cpp', 'src/fastcgi_api.cpp', 'src/cgi_api.cpp', 'src/scgi_api.cpp', 'src/http_response.cpp', 'src/cache_interface.cpp']
     P = model.Program(build.extract([REPO + '/' + u for u in ctx.units], include_re='^/repo/(src|private|cppcms)/'))
     ctx.stats['functions'] = len(P.fns)
     R1 = ctx.rule('C03.R1', 'format_output: the header block is emitted exactly on the path where the written-flag was false, and the flag is set there')
@@ -25,6 +25,7 @@ def run(ctx):
     R6 = ctx.rule('C03.R6', 'every output-side per-request field is reset at the request boundary (or survives by design)')
     R7 = ctx.rule('C03.R7', 'page copy for the cache: the tee buffer is spliced between the (optional) gzip stage and the device, forwards exactly the bytes it holds, and keeps them')
     R10 = ctx.rule('C03.R10', 'both header formatters emit every stored header and every added header line, each as `name: value CRLF`, and nothing is skipped except the Status line that was already written')
+    R9 = ctx.rule('C03.R9', 'after response::flush_async_chunk has produced the output (and, on completion, its end-of-response framing), the remaining flush of pending bytes - a write of an empty buffer - passes eof = false')
     R8 = ctx.rule('C03.R8', 'after a short write exactly the unsent tail of the buffer that was written is re-queued; pending output is dropped only when everything was sent')
 
     # ---------------- R1
@@ -209,8 +210,19 @@ def run(ctx):
     same = [r for r in rets if mc.ref_of(mc.ret_value(r)) == inp or (mc.subtree_refs(mc.ret_value(r)) == {inp})]
     ctx.check(len(term) == 1 and mc.only_through(term[0], g_empty) and mc.only_through(term[0], g_comp) and len(same) == 1 and mc.only_through(same[0], g_empty), R5,
               'make_chunked_wrapper:empty-write-cases', 'an empty write is framed as a terminating chunk before completion (or data is dropped)', mc.where)
-    tr7 = [w for w in mc.all_nodes() if mc.N(w)['k'] == 'BinaryOperator' and mc.N(w).get('op') == '=' and mc.const_value(mc.N(w)['ch'][1]) == 7]
-    ctx.check(len(tr7) == 1 and mc.only_through(tr7[0], g_comp), R5, 'make_chunked_wrapper:terminator-only-when-completed', 'the zero-length terminating chunk is appended to a non-final write', mc.where)
+    # the data trailer that also carries the terminating chunk ("\r\n0\r\n\r\n") is selected only when the response is completed:
+    # every use of that text - the literal itself, or a static array initialised with it - sits behind `completed`
+    TERM = '\r\n0\r\n\r\n'
+    statics = {}
+    for i in mc.all_nodes():
+        if mc.N(i)['k'] == 'DeclStmt':
+            for d in mc.N(i)['decls']:
+                if d.get('init') is not None and d['ref'].startswith('sv:') and any(mc.N(j)['k'] == 'StringLiteral' and mc.N(j).get('s') == TERM for j in mc.walk(d['init'])):
+                    statics[d['ref']] = d['init']
+    tsites = [j for j in mc.all_nodes() if mc.N(j)['k'] == 'StringLiteral' and mc.N(j).get('s') == TERM and not any(j in set(mc.walk(v)) for v in statics.values()) and mc.point_of(j)]
+    tsites += [j for j in mc.all_nodes() if mc.N(j)['k'] == 'DeclRefExpr' and mc.N(j).get('ref') in statics and mc.point_of(j) and
+               not any(mc.N(a_)['k'] == 'UnaryExprOrTypeTraitExpr' for a_ in mc.ancestors(j))]
+    ctx.check(len(tsites) >= 1 and all(mc.only_through(j, g_comp) for j in tsites), R5, 'make_chunked_wrapper:terminator-only-when-completed', 'the zero-length terminating chunk is appended to a non-final write', mc.where)
     fh = [f for f in fos if f.brecord == HTTP][0]
     te = [i for i in fh.calls() if any(fh.N(j)['k'] == 'StringLiteral' and 'Transfer-Encoding: chunked' in fh.N(j).get('s', '') for j in fh.walk(i))]
     cs = [w for w in q.field_writes(fh, 'http::chunked_te_') if fh.const_value(fh.N(w)['ch'][1]) == 1]
@@ -264,7 +276,7 @@ def run(ctx):
         a = f.args(i)
         zero = f.const_value(a[0]) == 0 and f.const_value(a[1]) == 0
         if zero:
-            okk = okk and f.short == 'getstr'
+            okk = okk and f.short not in ('overflow', 'sync', 'xsputn', 'sputc')      # dropping the put area belongs to handing the page out, never to the write path
         elif f.short == 'overflow':
             cont = [q.short_of(f.callee(j)) for j in f.calls(a[0])] == ['pptr']
             idx = [f.N(j)['ch'][2] for j in f.walk(a[0]) if f.N(j)['k'] == 'CXXOperatorCallExpr' and f.N(j).get('op') == '[]' and len(f.N(j)['ch']) == 3]
@@ -285,9 +297,27 @@ def run(ctx):
     okg = bool(gs)
     for f in gs:
         # n = buffer_.size() - (epptr() - pptr())
-        dn = [v for i in f.all_nodes() if f.N(i)['k'] == 'DeclStmt' for d in f.N(i)['decls'] if d.get('init') is not None for v in [d['init']] if d['name'] == 'n' or any(q.short_of(f.callee(j)) == 'epptr' for j in f.calls(d['init']))]
+        dn = [v for i in f.all_nodes() if f.N(i)['k'] == 'DeclStmt' for d in f.N(i)['decls'] if d.get('init') is not None for v in [d['init']] if any(q.short_of(f.callee(j)) == 'epptr' for j in f.calls(d['init']))]
         okg = okg and len(dn) == 1 and sorted(q.short_of(f.callee(j)) for j in f.calls(dn[0])) == ['epptr', 'pptr', 'size']
     ctx.check(okg, R7, 'copy_buf::getstr:length-is-size-minus-free-space', 'the copied page length is not buffer size minus the unused put area', gs[0].where if gs else cb.where)
+
+    # a page served from the cache is sent as stored: the compressed variant is announced before the output stream is created,
+    # because response::out() decides on (re)compression from the Content-Encoding header
+    fp = P.fn('cppcms::cache_interface::fetch_page')
+    ce = [i for i in fp.calls() if q.short_of(fp.callee(i)) == 'content_encoding']
+    outs = [i for i in fp.calls() if fp.bcallee(i) == 'cppcms::http::response::out']
+    ng = [i for i in fp.calls() if q.short_of(fp.callee(i)) == 'need_gzip']
+    gz_v = set(d['ref'] for i_ in fp.all_nodes() if fp.N(i_)['k'] == 'DeclStmt' for d in fp.N(i_)['decls'] if d.get('init') is not None and any(j in ng for j in fp.calls(d['init'])))
+    g_gz = fp.gate_edges(lambda atom, pol: ((fp.ref_of(atom) in gz_v) or atom in ng) and pol is True)
+    g_ngz = fp.gate_edges(lambda atom, pol: ((fp.ref_of(atom) in gz_v) or atom in ng) and pol is False)
+    ok = len(ce) == 1 and len(outs) >= 1 and bool(ng) and fp.only_through(ce[0], g_gz)
+    if ok:
+        for o in outs:
+            # out() is reached either on the not-gzip edge or after content_encoding
+            reach = fp.reachable_blocks(cut_edges=[e for e in g_ngz if len(e) == 4], cut_blocks=q.blocks_of(fp, ce))
+            po, pc = fp.point_of(o), fp.point_of(ce[0])
+            ok = ok and (po[0] not in reach or (po[0] == pc[0] and pc[1] < po[1])) and not (po[0] == pc[0] and po[1] < pc[1])
+    ctx.check(ok, R7, 'fetch_page:content-encoding-before-out', 'on a cache hit the output stream is created before the stored encoding is announced: the compressed page is compressed again', fp.where)
     ctx.floor(R7, 4)
 
     # ---------------- R10 header formatters
@@ -299,19 +329,39 @@ def run(ctx):
             continue
         seen_f.add(f.short)
         lps_ = q.loops(f)
-        over_h = [L for L in lps_ if any(model.strip_targs(r).endswith('response_headers::headers_') for r in f.subtree_refs(f.N(L).get('init', -1) if f.N(L).get('init', -1) is not None and f.N(L).get('init', -1) >= 0 else L))]
-        over_a = [L for L in lps_ if f.N(L)['k'] == 'CXXForRangeStmt' and any(model.strip_targs(r).endswith('response_headers::added_headers_') for r in f.subtree_refs(L))]
+
+        def loop_over(L, fld):
+            n = f.N(L)
+            part = n.get('range', -1) if n['k'] == 'CXXForRangeStmt' else n.get('init', -1)
+            return part is not None and part >= 0 and any(model.strip_targs(r).endswith('response_headers::' + fld) for r in f.subtree_refs(part))
+        over_h = [L for L in lps_ if loop_over(L, 'headers_')]
+        over_a = [L for L in lps_ if loop_over(L, 'added_headers_')]
         ok = len(over_h) == 1 and len(over_a) == 1
         why = 'expected one loop over headers_ and one over added_headers_'
         if ok:
             L = over_h[0]
             n = f.N(L)
-            begin = any(q.short_of(f.callee(j)) == 'begin' for j in f.calls(n['init']))
-            cond = f.strip(n['cond'])
-            ends = any(q.short_of(f.callee(j)) == 'end' for j in f.calls(n['init'])) or any(q.short_of(f.callee(j)) == 'end' for j in f.calls(cond))
-            ne = f.N(cond).get('op') == '!='
-            esc = [j for L2 in (over_h[0], over_a[0]) for j in f.walk(f.N(L2)['body']) if f.N(j)['k'] in ('BreakStmt', 'ContinueStmt', 'ReturnStmt', 'GotoStmt')]
-            ok = begin and ends and ne and not esc
+            if n['k'] == 'CXXForRangeStmt':
+                whole = True
+            else:
+                begin = any(q.short_of(f.callee(j)) == 'begin' for j in f.calls(n['init']))
+                cond = f.strip(n['cond'])
+                ends = any(q.short_of(f.callee(j)) == 'end' for j in f.calls(n['init'])) or any(q.short_of(f.callee(j)) == 'end' for j in f.calls(cond))
+                whole = begin and ends and f.N(cond).get('op') == '!='
+            # the iterator found by find("Status"): the only entry that may be skipped
+            statv = set(r for i_ in f.all_nodes() if f.N(i_)['k'] == 'DeclStmt' for d in f.N(i_)['decls'] if d.get('init') is not None and
+                        any(f.N(x)['k'] == 'StringLiteral' and f.N(x).get('s') == 'Status' for x in f.walk(d['init'])) for r in [d['ref']])
+            esc = []
+            for L2 in (over_h[0], over_a[0]):
+                for j in f.walk(f.N(L2)['body']):
+                    k_ = f.N(j)['k']
+                    if k_ in ('BreakStmt', 'ReturnStmt', 'GotoStmt'):
+                        esc.append(j)
+                    elif k_ == 'ContinueStmt':
+                        gi = f.enclosing(j, ('IfStmt',))
+                        if not (L2 == over_h[0] and gi is not None and f.contains(f.N(L2)['body'], gi) and len([r for r in f.subtree_refs(f.N(gi)['cond']) if r in statv]) == 1):
+                            esc.append(j)
+            ok = whole and not esc
             why = 'the loop over headers_ does not run from begin() to end() without leaving early'
             if ok:
                 lits = sorted(set(f.N(j).get('s') for j in f.walk(f.N(L)['body']) if f.N(j)['k'] == 'StringLiteral'))
@@ -322,9 +372,7 @@ def run(ctx):
                 # the only guard inside the loop compares the iterator with the Status entry
                 conds = [j for j in f.walk(f.N(L)['body']) if f.N(j)['k'] == 'IfStmt']
                 for j in conds:
-                    refs = [r for r in f.subtree_refs(f.N(j)['cond']) if r.startswith('v:')]
-                    stat = [r for r in refs if any(v is not None and any(f.N(x)['k'] == 'StringLiteral' and f.N(x).get('s') == 'Status' for x in f.walk(v)) for (_, v) in f.defs_of_var(r))]
-                    ok = ok and len(stat) == 1
+                    ok = ok and len([r for r in f.subtree_refs(f.N(j)['cond']) if r in statv]) == 1
                     why = 'a header other than Status can be skipped'
             if ok:
                 la = sorted(set(f.N(j).get('s') for j in f.walk(f.N(over_a[0])['body']) if f.N(j)['k'] == 'StringLiteral'))
@@ -338,6 +386,28 @@ def run(ctx):
         endw = [w for w in endw if w is not None and f.only_through(w, g_c)]
         ctx.check(len(endw) == 1, R10, '%s:blank-line-only-when-complete' % f.short, 'the terminating blank line is not written exactly under `complete`', f.where)
     ctx.floor(R10, 4)
+
+    # ---------------- R9 pending flush never re-frames
+    n9 = 0
+    for f in sorted(P.fns.values(), key=lambda g: g.id):
+        if not f.file.endswith('/src/cgi_api.cpp') and not f.file.endswith('/src/http_response.cpp'):
+            continue
+        # only where the response layer has just produced the output itself (flush_async_chunk runs the buffers' own end-of-response framing)
+        if not [j for j in f.calls() if (f.bcallee(j) or '').endswith('response::flush_async_chunk')]:
+            continue
+        for i in f.calls():
+            if f.bcallee(i) not in (CONN + '::async_write', CONN + '::write', CONN + '::nonblocking_write'):
+                continue
+            a = f.args(i)
+            if len(a) < 2:
+                continue
+            d0 = f.strip(a[0])
+            empty = f.N(d0)['k'] in ('CXXTemporaryObjectExpr', 'CXXConstructExpr') and not [x for x in f.args(d0) if f.N(x)['k'] != 'CXXDefaultArgExpr'] and 'const_buffer' in (f.callee(d0) or '')
+            if not empty:
+                continue
+            n9 += 1
+            ctx.check(f.const_value(a[1]) == 0, R9, '%s:flush-of-pending:eof-false@L%d' % (f.short, f.N(i)['l'] - f.line), 'an empty write that only flushes pending output passes a non-constant / true eof flag: the terminating framing can be emitted twice', f.loc(i))
+    ctx.require(n9 >= 1 or ctx.violations, 'C03.R9: no flush-of-pending write found')
 
     # ---------------- R8
     nb = P.fn(CONN + '::nonblocking_write')
